@@ -56,7 +56,7 @@ def _csr_leaf(draw, dw):
     if kind == "gpio" and dw % 8:
         kind = "mux"      # gpio.Peripheral builds its registers with granularity 8
     if kind == "mux":
-        return {"t": "mux", "lay": draw(gens.csr_layout(max_regs=3, dws=(dw,), overlaps=False, high=True))}
+        return {"t": "mux", "lay": draw(gens.csr_layout(max_regs=draw(st.sampled_from([3, 3, 5])), dws=(dw,), overlaps=True, high=True))}
     if kind == "regbridge":
         regs = []
         for _ in range(draw(st.integers(1, 4))):
@@ -153,7 +153,9 @@ def _build_csr(node, path, h, dw):
     """-> (csr bus interface, depth)"""
     t = node["t"]
     if t == "mux":
-        mux, regs = gens.build_csr_mux(node["lay"], None, name_prefix=_pfx(path, "r"))
+        mux, regs = gens.build_csr_mux(node["lay"], node["lay"].get("ov"), name_prefix=_pfx(path, "r"))
+        if node["lay"].get("ov") is not None:
+            h.labels.add("finite_sharing_limit")
         h.comps.append(mux)
         for (reg, s, e), r in zip(regs, node["lay"]["regs"]):
             h.mock.append((reg, r))
@@ -634,7 +636,14 @@ def check(spec, stats):
     for l in regs:
         l.snap_new = 0
         l.wdata_seen = 0
-    sim.simulate(top, tb)
+    try:
+        sim.simulate(top, tb)
+    except ValueError as e:
+        from vlib.common import deliberate_refusal
+        if deliberate_refusal(e) and "finite_sharing_limit" in h.labels and "cannot be balanced" in str(e):
+            stats.label("refused_unbalanceable_layout")      # an unaligned layout with a finite sharing limit: no verdict here (C04/C05/C19)
+            return
+        raise
     stats.add("simulated_cycles", tick[0])
     kinds = {l.kind for l in leaves}
     stats.nontrivial = (depth >= 2 and len(leaves) >= 3 and len(kinds) >= 2 and stats.has("multi_chunk_leaf")
